@@ -148,6 +148,23 @@ pub fn programs() -> Vec<Prog> {
 
 /// Straight-line program with one instruction of every opcode and every output trap (the debugger
 /// and the run loop must agree, for each of them, that it is an ordinary instruction to execute).
+/// A subroutine that executes JSR 65 536 times as a plain linking jump (the "get PC" idiom) and
+/// returns with JMP: calls and returns are not paired, so only crashes, the instruction count
+/// and agreement with the reference's own bookkeeping are judged - but any call-depth counter
+/// inside the debugger is driven past 2^16.
+pub fn linking_jumps() -> Prog {
+    let mut p = Program::default();
+    p.push(None, Stmt::Jsr(lbl("sub")));
+    p.push(Some("after"), Stmt::Named(0x25, "halt"));
+    p.push(Some("sub"), Stmt::Add(6, 7, Src2::Imm(Lit::dec(0))));
+    p.push(None, Stmt::And(0, 0, Src2::Imm(Lit::dec(0))));
+    p.push(Some("loop"), Stmt::Jsr(lbl("next")));
+    p.push(Some("next"), Stmt::Add(0, 0, Src2::Imm(Lit::dec(1))));
+    p.push(None, Stmt::Br(0b101, "brnp".into(), lbl("loop")));
+    p.push(None, Stmt::Jmp(6));
+    Prog::new("65536-linking-jumps", p, true)
+}
+
 pub fn every_kind() -> Prog {
     let mut p = Program::default();
     p.push(None, Stmt::Mem(PcRel::Lea, 0, lbl("msg")));
@@ -215,10 +232,14 @@ pub fn script_of(actions: &[&Action], tail: Tail) -> String {
 pub const SESSION_FUEL: u64 = 200_000;
 
 pub fn run_real(prog: &Prog, actions: &[&Action], tail: Tail, minimal: bool) -> Result<Obs, (String, String)> {
+    run_real_fuel(prog, actions, tail, minimal, SESSION_FUEL)
+}
+
+pub fn run_real_fuel(prog: &Prog, actions: &[&Action], tail: Tail, minimal: bool, fuel: u64) -> Result<Obs, (String, String)> {
     let script = script_of(actions, tail);
     let mut env = Env::new(prog.stack);
     env.minimal = minimal;
-    match session(&prog.text, env, Some(&script), SESSION_FUEL) {
+    match session(&prog.text, env, Some(&script), fuel) {
         Err(stopped) => Err((format!("panic/{}", stopped.panic_site()), stopped.short())),
         Ok(SessionResult::AsmFailed(e)) => Err(("assembler-rejected-test-program".into(), e.message)),
         Ok(SessionResult::LoadFailed(e)) => Err(("load-failed".into(), e)),
@@ -228,8 +249,12 @@ pub fn run_real(prog: &Prog, actions: &[&Action], tail: Tail, minimal: bool) -> 
 
 /// Run the reference over the same history. Returns the debugger and the pause of each command.
 pub fn run_ref(prog: &Prog, actions: &[&Action]) -> (Dbg, Vec<Pause>) {
+    run_ref_fuel(prog, actions, SESSION_FUEL)
+}
+
+pub fn run_ref_fuel(prog: &Prog, actions: &[&Action], fuel: u64) -> (Dbg, Vec<Pause>) {
     let mut d = prog.reference();
-    let mut budget = SESSION_FUEL / 2;
+    let mut budget = fuel / 2;
     let mut pauses = Vec::new();
     for a in actions {
         let p = d.apply(&a.cmd, &mut budget);
